@@ -197,7 +197,7 @@ Returns:
         evalmon = self._evalmon
         raw = cost
         if ExtraArgs is None: ExtraArgs = ()
-        self._fcalls, cost = wrap_function(cost, ExtraArgs, evalmon)
+        self._fcalls, cost = wrap_function(cost, ExtraArgs, evalmon, start=self._fcalls[0])
         if self._useStrictRange:
             if self.generations:
                 #NOTE: pop[0] was best, may not be after resetting simplex
